@@ -312,7 +312,15 @@ namespace
 #ifndef C14_TWIN
                 size_t n0 = mx.size();
                 int val3 = (int)mod(arg(o, 4), 1000);
-                if (val3 % 3 == 0) { std::reverse(x.begin(), x.end()); std::reverse(mx.begin(), mx.end()); }
+                if (val3 % 4 == 3)
+                {
+                    // the two containers exchanged the way generic code does it (swap found by argument-dependent lookup, std::swap otherwise)
+                    using std::swap;
+                    swap(*s[0].obj, *s[1].obj);
+                    std::swap(s[0].m, s[1].m);
+                    if (s[0].m.size() != s[1].m.size()) probe("containers_of_different_size_swapped");
+                }
+                else if (val3 % 3 == 0) { std::reverse(x.begin(), x.end()); std::reverse(mx.begin(), mx.end()); }
                 else if (val3 % 3 == 1 && n0)
                 {
                     size_t k2 = (size_t)mod(arg(o, 2), (int64_t)n0);
